@@ -184,6 +184,25 @@ def gen_T08():
     src_ac = ast.unparse(find_def(t, '_addCapabilities', 'Irc'))
     need("while item.startswith(('=', '~')):\n            item = item[1:]" in src_ac and "cap, value = item.split('=', 1)" in src_ac
          and 'self.state.capabilities_ls[cap] = value' in src_ac and 'self.state.capabilities_ls[item] = None' in src_ac, '_addCapabilities changed')
+    # IrcState.reset: three distinct fresh sets (a chained assignment would alias requested / acknowledged / refused)
+    rs = _body(find_def(t, 'reset', 'IrcState'))
+    assigns = [ast.unparse(x) for x in rs if isinstance(x, ast.Assign)]
+    for name in ('capabilities_req', 'capabilities_ack', 'capabilities_nak'):
+        need('self.%s = set()' % name in assigns, 'IrcState.reset: self.%s must be assigned its own fresh set()' % name)
+    need('self.capabilities_ls = {}' in assigns and not any(isinstance(x, ast.Assign) and len(x.targets) > 1 for x in rs),
+         'IrcState.reset: chained assignment / capabilities_ls changed')
+    # the STS store (C09): stored and looked up under the same key: the hostname exactly as the server entry carries it
+    db = tree('src/ircdb.py')
+    need([ast.unparse(x) for x in _body(find_def(db, 'addStsPolicy', 'IrcNetwork'))] ==
+         ['assert isinstance(stsPolicy, str)', 'self.stsPolicies[server] = stsPolicy'], 'IrcNetwork.addStsPolicy: key changed')
+    need([ast.unparse(x) for x in _body(find_def(db, 'expireStsPolicy', 'IrcNetwork'))] ==
+         ['if server in self.stsPolicies:\n    del self.stsPolicies[server]'], 'IrcNetwork.expireStsPolicy: key changed')
+    need([ast.unparse(x) for x in _body(find_def(db, 'addDisconnection', 'IrcNetwork'))] ==
+         ['self.lastDisconnectTimes[server] = int(time.time())'], 'IrcNetwork.addDisconnection: key changed')
+    need('policy = network.stsPolicies.get(server.hostname)' in src_ap and 'lastDisconnect = network.lastDisconnectTimes.get(server.hostname)' in src_ap
+         and 'network.expireStsPolicy(server.hostname)' in src_ap, '_applyStsPolicy: lookup key changed')
+    need('network.addDisconnection(self.currentServer.hostname)' in ast.unparse(find_def(d, 'onDisconnect', 'ServersMixin')), 'onDisconnect: key changed')
+    need('addStsPolicy(self.driver.currentServer.hostname, policy)' in ast.unparse(find_def(t, '_onCapSts', 'Irc')), '_onCapSts: store key changed')
     has_filter = any(isinstance(n, ast.FunctionDef) and n.name == 'filterSaslMechanisms' for n in irc.body)
     order = ['on_init_messages_sent', 'on_sasl_cap', 'on_sasl_auth_finished', 'on_cap_end', 'on_start_motd', 'on_end_motd', 'on_shutdown']
     out = '(* FSM states: ' + ', '.join('%s=%d' % kv for kv in sorted(states.items(), key=lambda kv: kv[1])) + ' *)\n'
